@@ -14,7 +14,7 @@ import (
 // prefix-related siblings, dots, spaces, non-ASCII, pipeline suffixes, one long name.
 var Universe = []string{"a", "b", "ab", "a_", "a%", "A", ".x", "x.y", "a b", "é", "日本", "x.gz", "x.zst.age", "c", "d", strings.Repeat("L", 120),
 	// pattern metacharacters of GLOB / LIKE ESCAPE / regular expressions, and quotes
-	"a[b]", "a?", "a*", "[a-c]", "a\\b", "it's", "q\"q", "^a$", "a+", "{a,b}",
+	"a[b]", "a?", "a*", "[a-c]", "a\\b", "it's", "q\"q", "^a$", "a+", "{a,b}", "\U0010ffffq", "\U0010ffff",
 	// supplementary-plane characters (4-byte UTF-8), a combining sequence, the highest BMP character, DEL
 	"😀", "𝄞a", "a😀", "e\u0301", "\uffff", "\uffffa", "a\x7f", "~", "\u00a0",
 	// names that path arithmetic may take for relative steps
@@ -341,6 +341,9 @@ func (g *Gen) draw1(t *rapid.T, mr *MRunner) Step {
 			// gaps of whole I/O chunks, whole records and just beside them
 			rec := int64(g.RS) * 512
 			offs = []int64{size + 32768, size + 65536, size + 32767, 32768, 65536, size + rec, size + 2*rec, rec, 2 * rec, rec - 1, rec + 1}
+			if op == "truncate" && g.MaxSize >= 300<<10 {
+				offs = append(offs, size+8<<20+1234) // far beyond any buffer or chunk size in sight
+			}
 		}
 		switch op {
 		case "write", "writestring":
